@@ -321,6 +321,8 @@ def subcircuit_cases(draw, tier):
             'label_mode': draw(st.sampled_from(['fresh', 'fresh', 'same_boundary'])),
             'fault': fault,
             'reuse_victim_label': draw(st.booleans()),
+            # the replacement is a circuit like any other: parsed from text with forward references, renamed, ...
+            'sub_route': draw(gen.free_routes()),
             'uuid_seed': draw(st.integers(0, 2 ** 20))}
 
 
@@ -395,6 +397,10 @@ def plan_replacement(nl, roots_idx, grow_idx, form, label_mode, prefix='rs_'):
             'boundary_depends_on_cone': downstream}
 
 
+def _benchable(label: str) -> bool:
+    return bool(label) and all(ch.isalnum() or ch in '_' for ch in label) and not label.upper().startswith(('INPUT', 'OUTPUT'))
+
+
 def check_subcircuit(case):
     core = cirbo_core()
     nl = case['nl']
@@ -458,7 +464,11 @@ def check_subcircuit(case):
         applied = fault
     c = build.build(nl, case['route'])
     _make_blocks(c, nl, case.get('blocks', []))
-    sub = build.build({'inputs': rep['inputs'], 'gates': rep['gates'], 'outputs': rep['outputs']})
+    sub_nl = {'inputs': rep['inputs'], 'gates': rep['gates'], 'outputs': rep['outputs']}
+    sub_route = case.get('sub_route')
+    if sub_route and sub_route['kind'] == 'bench' and not all(_benchable(g[0]) for g in rep['gates']):
+        sub_route = {'kind': 'rename', 'moves': sub_route.get('keys', [1, 2])}
+    sub = build.build(sub_nl, sub_route)
     t_before = refsem.out_tables(nl)
     n_in, n_out = len(nl['inputs']), len(nl['outputs'])
     with UuidStream(case['uuid_seed']):
